@@ -13,6 +13,7 @@ import (
 	"verif/harness/alifedrv"
 	"verif/harness/builddrv"
 	"verif/harness/convdrv"
+	"verif/harness/helpdrv"
 	"verif/harness/injdrv"
 	"verif/harness/launchdrv"
 	"verif/harness/isolate"
@@ -90,6 +91,14 @@ func main() {
 		}
 	case "stubsetup-child":
 		os.Exit(setupdrv.Child())
+	case "apihelpers":
+		fs := flag.NewFlagSet(mod, flag.ExitOnError)
+		in := fs.String("in", "", "scenarios")
+		out := fs.String("out", "", "trace file")
+		fs.Parse(args)
+		if err := helpdrv.Run(*in, *out); err != nil {
+			fail(err)
+		}
 	case "build":
 		fs := flag.NewFlagSet(mod, flag.ExitOnError)
 		in := fs.String("in", "", "scenarios")
